@@ -255,20 +255,56 @@ theorem R.rebuild_net {s1 : Sys1 N} {s0 s0' : Sys N} (r : R s1 s0) (net' : Msg1 
     (hnet : RNet net' s0') : R ⟨s1.nodes, net'⟩ s0' :=
   ⟨fun j => by rw [hn]; exact r.nodes j, hnet, fun j => (r.node j).mono hm ha⟩
 
+/-- the L0 steps in which no quorum decides and no client/timer acts: what 18 of the 22 branches of `Step1` are simulated by -/
+inductive StepNQ : Sys N → Sys N → Prop
+| updateTerm (s : Sys N) (i : Fin N) (t : Nat) (ht : (s.nodes i).term < t) : StepNQ s (doUpdateTerm s i t)
+| grant (s : Sys N) (j c : Fin N) (t li lt : Nat) (hm : s.msgs (.rv t c li lt)) (ht : (s.nodes j).term = t)
+    (hv : (s.nodes j).vote = none) (hu : upToDate lt li (s.nodes j).log) : StepNQ s (doGrant s j c t)
+| sendAE (s : Sys N) (i : Fin N) (prev cnt : Nat) (hl : (s.nodes i).role = .leader)
+    (hp : prev ≤ (s.nodes i).log.length) : StepNQ s (doSendAE s i prev cnt)
+| handleAE (s : Sys N) (j src : Fin N) (t prev pt : Nat) (ents : Log) (cm : Nat)
+    (hm : s.msgs (.ae t src prev pt ents cm)) (ht : (s.nodes j).term = t)
+    (hnl : (s.nodes j).role ≠ .leader)
+    (hmatch : prev ≤ (s.nodes j).log.length ∧ termAt (s.nodes j).log prev = pt) : StepNQ s (doHandleAE s j src t prev ents cm)
+| restart (s : Sys N) (i : Fin N) : StepNQ s (doRestart s i)
+| ackCommitted (s : Sys N) (j src : Fin N) (t prev pt : Nat) (ents : Log) (cm : Nat)
+    (hm : s.msgs (.ae t src prev pt ents cm)) (ht : (s.nodes j).term = t) (hnl : (s.nodes j).role ≠ .leader)
+    (hlt : prev < (s.nodes j).commit) : StepNQ s (doAckCommitted s j src t)
+| sendHB (s : Sys N) (i dst : Fin N) (c : Nat) (hl : (s.nodes i).role = .leader) (hc : c ≤ (s.nodes i).commit)
+    (hack : c = 0 ∨ ∃ n, c ≤ n ∧ s.acks (s.nodes i).term dst n) : StepNQ s (doSendHB s i dst c)
+| handleHB (s : Sys N) (j src : Fin N) (t c : Nat) (hm : s.msgs (.hb t src j c)) (ht : (s.nodes j).term = t)
+    (hnl : (s.nodes j).role ≠ .leader) : StepNQ s (doHandleHB s j c)
+
+theorem StepNQ.toStep {s s' : Sys N} (h : StepNQ s s') : Step s s' := by
+  cases h with
+  | updateTerm i t ht => exact .updateTerm s i t ht
+  | grant j c t li lt hm ht hv hu => exact .grant s j c t li lt hm ht hv hu
+  | sendAE i prev cnt hl hp => exact .sendAE s i prev cnt hl hp
+  | handleAE j src t prev pt ents cm hm ht hnl hmatch => exact .handleAE s j src t prev pt ents cm hm ht hnl hmatch
+  | restart i => exact .restart s i
+  | ackCommitted j src t prev pt ents cm hm ht hnl hlt => exact .ackCommitted s j src t prev pt ents cm hm ht hnl hlt
+  | sendHB i dst c hl hc hack => exact .sendHB s i dst c hl hc hack
+  | handleHB j src t c hm ht hnl => exact .handleHB s j src t c hm ht hnl
+
+/-- zero or one quorum-free L0 step -/
+def StepNQ? (s s' : Sys N) : Prop := s' = s ∨ StepNQ s s'
+
+theorem StepNQ?.toStep? {s s' : Sys N} (h : StepNQ? s s') : s' = s ∨ Step s s' := h.imp id StepNQ.toStep
+
 /-- one L1 step is zero or one L0 steps -/
 def Step? (s s' : Sys N) : Prop := s' = s ∨ Step s s'
 
 theorem sim_higherTerm {s1 : Sys1 N} {s0 : Sys N} (r : R s1 s0) (j : Fin N) (t : Nat) (lead : Option (Fin N))
-    (h : (s1.nodes j).term < t) : ∃ s0', Step? s0 s0' ∧ R ⟨upd1 s1.nodes j (bump (s1.nodes j) t lead), s1.net⟩ s0' := by
-  refine ⟨doUpdateTerm s0 j t, Or.inr (Step.updateTerm s0 j t (by rw [r.term]; exact h)), ?_⟩
+    (h : (s1.nodes j).term < t) : ∃ s0', StepNQ? s0 s0' ∧ R ⟨upd1 s1.nodes j (bump (s1.nodes j) t lead), s1.net⟩ s0' := by
+  refine ⟨doUpdateTerm s0 j t, Or.inr (StepNQ.updateTerm s0 j t (by rw [r.term]; exact h)), ?_⟩
   refine r.rebuild j _ _ ?_ (fun _ h => h) (fun _ _ _ h => h) (r.net.mono (fun _ h => h) (fun _ _ _ h => h)) ?_
   · simp only [doUpdateTerm, ← r.nodes j]; rfl
   · refine ⟨?_, ?_, ?_, ?_⟩ <;> simp [bump]
 
-theorem sim_hup {s1 : Sys1 N} {s0 : Sys N} (r : R s1 s0) (i : Fin N) (h : (s1.nodes i).role ≠ .leader) :
-    ∃ s0', Step? s0 s0' ∧ R ⟨upd1 s1.nodes i (campaign (s1.nodes i) i),
-      send s1 fun m => ∃ dst, dst ≠ i ∧ m = .vote ((s1.nodes i).term + 1) i dst (s1.nodes i).log.length (lastTerm (s1.nodes i).log)⟩ s0' := by
-  refine ⟨doTimeout s0 i, Or.inr (Step.timeout s0 i (by rw [r.role]; exact h)), ?_⟩
+theorem R_hup {s1 : Sys1 N} {s0 : Sys N} (r : R s1 s0) (i : Fin N) :
+    R ⟨upd1 s1.nodes i (campaign (s1.nodes i) i),
+      send s1 fun m => ∃ dst, dst ≠ i ∧ m = .vote ((s1.nodes i).term + 1) i dst (s1.nodes i).log.length (lastTerm (s1.nodes i).log)⟩
+      (doTimeout s0 i) := by
   have hm : ∀ m, s0.msgs m → (doTimeout s0 i).msgs m := fun _ h => Or.inl h
   have ha : ∀ t j n, s0.acks t j n → (doTimeout s0 i).acks t j n := fun _ _ _ h => h
   refine r.rebuild i _ _ ?_ hm ha ?_ ?_
@@ -421,11 +457,16 @@ theorem RNet.add_snap (h : RNet net s0) (t : Nat) (src dst : Fin N) (k : Nat) (e
     · cases x; exact ob
 end add
 
+theorem sim_hup {s1 : Sys1 N} {s0 : Sys N} (r : R s1 s0) (i : Fin N) (h : (s1.nodes i).role ≠ .leader) :
+    ∃ s0', Step? s0 s0' ∧ R ⟨upd1 s1.nodes i (campaign (s1.nodes i) i),
+      send s1 fun m => ∃ dst, dst ≠ i ∧ m = .vote ((s1.nodes i).term + 1) i dst (s1.nodes i).log.length (lastTerm (s1.nodes i).log)⟩ s0' :=
+  ⟨doTimeout s0 i, Or.inr (Step.timeout s0 i (by rw [r.role]; exact h)), R_hup r i⟩
+
 theorem sim_voteGrant {s1 : Sys1 N} {s0 : Sys N} (r : R s1 s0) (j c : Fin N) (t li lt : Nat)
     (hm : s1.net (.vote t c j li lt)) (ht : (s1.nodes j).term = t)
     (hcan : (s1.nodes j).vote = some c ∨ ((s1.nodes j).vote = none ∧ (s1.nodes j).lead = none))
     (hu : upToDate lt li (s1.nodes j).log) :
-    ∃ s0', Step? s0 s0' ∧ R ⟨upd1 s1.nodes j { (s1.nodes j) with vote := some c }, send s1 fun m => m = .voteResp t j c false⟩ s0' := by
+    ∃ s0', StepNQ? s0 s0' ∧ R ⟨upd1 s1.nodes j { (s1.nodes j) with vote := some c }, send s1 fun m => m = .voteResp t j c false⟩ s0' := by
   obtain ⟨hjc, hrv⟩ := r.net.mvote _ _ _ _ _ hm
   rcases hcan with hv | ⟨hv, _⟩
   · -- repeat grant: the response exists already
@@ -438,7 +479,7 @@ theorem sim_voteGrant {s1 : Sys1 N} {s0 : Sys N} (r : R s1 s0) (j c : Fin N) (t 
       · simp [upd, hk]
     · have o := r.node j
       exact ⟨fun c' a b => o.voted c' (by simpa [hv] using a) b, o.granted, o.matched, o.selfack⟩
-  · refine ⟨doGrant s0 j c t, Or.inr (Step.grant s0 j c t li lt hrv (by rw [r.term]; exact ht) (by rw [r.vote]; exact hv)
+  · refine ⟨doGrant s0 j c t, Or.inr (StepNQ.grant s0 j c t li lt hrv (by rw [r.term]; exact ht) (by rw [r.vote]; exact hv)
       (by rw [r.log]; exact hu)), ?_⟩
     have hmm : ∀ m, s0.msgs m → (doGrant s0 j c t).msgs m := fun _ h => Or.inl h
     have ha : ∀ t' j' n, s0.acks t' j' n → (doGrant s0 j c t).acks t' j' n := fun _ _ _ h => h
@@ -451,12 +492,12 @@ theorem sim_voteGrant {s1 : Sys1 N} {s0 : Sys N} (r : R s1 s0) (j c : Fin N) (t 
       rw [ht]; exact Or.inr rfl
 
 theorem sim_voteReject {s1 : Sys1 N} {s0 : Sys N} (r : R s1 s0) (j c : Fin N) (t : Nat) :
-    ∃ s0', Step? s0 s0' ∧ R ⟨s1.nodes, send s1 fun m => m = .voteResp t j c true⟩ s0' :=
+    ∃ s0', StepNQ? s0 s0' ∧ R ⟨s1.nodes, send s1 fun m => m = .voteResp t j c true⟩ s0' :=
   ⟨s0, Or.inl rfl, r.rebuild_net _ rfl (fun _ h => h) (fun _ _ _ h => h) (r.net.add_voteResp t j c true (fun h => by cases h))⟩
 
 theorem sim_voteRecord {s1 : Sys1 N} {s0 : Sys N} (r : R s1 s0) (i src : Fin N) (rej : Bool)
     (hm : s1.net (.voteResp (s1.nodes i).term src i rej)) :
-    ∃ s0', Step? s0 s0' ∧ R ⟨upd1 s1.nodes i (recordVote (s1.nodes i) src rej), s1.net⟩ s0' := by
+    ∃ s0', StepNQ? s0 s0' ∧ R ⟨upd1 s1.nodes i (recordVote (s1.nodes i) src rej), s1.net⟩ s0' := by
   refine ⟨s0, Or.inl rfl, r.rebuild i _ _ ?_ (fun _ h => h) (fun _ _ _ h => h) r.net ?_⟩
   · funext k; by_cases hk : k = i
     · subst hk; simp [upd, ← r.nodes k, projNode, recordVote]
@@ -476,14 +517,14 @@ theorem sim_voteRecord {s1 : Sys1 N} {s0 : Sys N} (r : R s1 s0) (i src : Fin N) 
         subst hg; right; exact r.net.mvresp _ _ _ hm
     · rw [if_neg hj] at hg; exact o.granted j hc hg
 
-theorem sim_win {s1 : Sys1 N} {s0 : Sys N} (r : R s1 s0) (i : Fin N)
-    (hc : (s1.nodes i).role = .candidate)
-    (hq' : N < 2 * (List.finRange N).countP (fun j => (s1.nodes i).votes j == some true)) :
-    ∃ s0', Step? s0 s0' ∧ R ⟨upd1 s1.nodes i (winElection (s1.nodes i) i), s1.net⟩ s0' := by
-  obtain ⟨Q, hq, hQ'⟩ := quorum_of_countP _ hq'
-  have hQ : ∀ j ∈ Q, (s1.nodes i).votes j = some true := fun j hj => by simpa using hQ' j hj
-  refine ⟨doBecomeLeader s0 i Q, Or.inr (Step.becomeLeader s0 i Q hq (by rw [r.role]; exact hc) ?_), ?_⟩
-  · intro j hj; rw [r.term]; exact (r.node i).granted j hc (hQ j hj)
+/-- the granted entries of a candidate's `votes[]` are backed by `rvResp` messages (or are its own vote) -/
+theorem win_backing {s1 : Sys1 N} {s0 : Sys N} (r : R s1 s0) (i : Fin N) (hc : (s1.nodes i).role = .candidate)
+    (Q : Finset (Fin N)) (hQ : ∀ j ∈ Q, (s1.nodes i).votes j = some true) :
+    ∀ j ∈ Q, j = i ∨ s0.msgs (.rvResp (s0.nodes i).term j i true) := by
+  intro j hj; rw [r.term]; exact (r.node i).granted j hc (hQ j hj)
+
+theorem R_win {s1 : Sys1 N} {s0 : Sys N} (r : R s1 s0) (i : Fin N) (Q : Finset (Fin N)) :
+    R ⟨upd1 s1.nodes i (winElection (s1.nodes i) i), s1.net⟩ (doBecomeLeader s0 i Q) := by
   have hmm : ∀ m, s0.msgs m → (doBecomeLeader s0 i Q).msgs m := fun _ h => h
   have ha : ∀ t' j' n, s0.acks t' j' n → (doBecomeLeader s0 i Q).acks t' j' n := fun _ _ _ h => Or.inl h
   refine r.rebuild i _ _ ?_ hmm ha (r.net.mono hmm ha) ?_
@@ -502,17 +543,27 @@ theorem sim_win {s1 : Sys1 N} {s0 : Sys N} (r : R s1 s0) (i : Fin N)
       · rw [if_neg hj] at hpos; omega
     · intro _; simpa [winElection] using hself
 
-theorem sim_stepDown {s1 : Sys1 N} {s0 : Sys N} (r : R s1 s0) (i : Fin N) :
-    ∃ s0', Step? s0 s0' ∧ R ⟨upd1 s1.nodes i (stepDownN (s1.nodes i)), s1.net⟩ s0' := by
-  refine ⟨doRestart s0 i, Or.inr (Step.restart s0 i), ?_⟩
+theorem sim_win {s1 : Sys1 N} {s0 : Sys N} (r : R s1 s0) (i : Fin N)
+    (hc : (s1.nodes i).role = .candidate)
+    (hq' : N < 2 * (List.finRange N).countP (fun j => (s1.nodes i).votes j == some true)) :
+    ∃ s0', Step? s0 s0' ∧ R ⟨upd1 s1.nodes i (winElection (s1.nodes i) i), s1.net⟩ s0' := by
+  obtain ⟨Q, hq, hQ'⟩ := quorum_of_countP _ hq'
+  have hQ : ∀ j ∈ Q, (s1.nodes i).votes j = some true := fun j hj => by simpa using hQ' j hj
+  exact ⟨doBecomeLeader s0 i Q, Or.inr (Step.becomeLeader s0 i Q hq (by rw [r.role]; exact hc) (win_backing r i hc Q hQ)), R_win r i Q⟩
+
+theorem R_stepDown {s1 : Sys1 N} {s0 : Sys N} (r : R s1 s0) (i : Fin N) :
+    R ⟨upd1 s1.nodes i (stepDownN (s1.nodes i)), s1.net⟩ (doRestart s0 i) := by
   refine r.rebuild i _ _ ?_ (fun _ h => h) (fun _ _ _ h => h) (r.net.mono (fun _ h => h) (fun _ _ _ h => h)) ?_
   · simp only [doRestart, ← r.nodes i]; rfl
   · have o := r.node i
     refine ⟨o.voted, ?_, ?_, ?_⟩ <;> simp [stepDownN]
 
-theorem sim_propose {s1 : Sys1 N} {s0 : Sys N} (r : R s1 s0) (i : Fin N) (v : Nat) (hl : (s1.nodes i).role = .leader) :
-    ∃ s0', Step? s0 s0' ∧ R ⟨upd1 s1.nodes i (proposeN (s1.nodes i) v), s1.net⟩ s0' := by
-  refine ⟨doClientReq s0 i v, Or.inr (Step.clientReq s0 i v (by rw [r.role]; exact hl)), ?_⟩
+theorem sim_stepDown {s1 : Sys1 N} {s0 : Sys N} (r : R s1 s0) (i : Fin N) :
+    ∃ s0', StepNQ? s0 s0' ∧ R ⟨upd1 s1.nodes i (stepDownN (s1.nodes i)), s1.net⟩ s0' :=
+  ⟨doRestart s0 i, Or.inr (StepNQ.restart s0 i), R_stepDown r i⟩
+
+theorem R_propose {s1 : Sys1 N} {s0 : Sys N} (r : R s1 s0) (i : Fin N) (v : Nat) (hl : (s1.nodes i).role = .leader) :
+    R ⟨upd1 s1.nodes i (proposeN (s1.nodes i) v), s1.net⟩ (doClientReq s0 i v) := by
   have hmm : ∀ m, s0.msgs m → (doClientReq s0 i v).msgs m := fun _ h => h
   have ha : ∀ t' j' n, s0.acks t' j' n → (doClientReq s0 i v).acks t' j' n := fun _ _ _ h => Or.inl h
   refine r.rebuild i _ _ ?_ hmm ha (r.net.mono hmm ha) ?_
@@ -525,11 +576,15 @@ theorem sim_propose {s1 : Sys1 N} {s0 : Sys N} (r : R s1 s0) (i : Fin N) (v : Na
       simp only [proposeN]
       exact Or.inr ⟨by rw [r.term], rfl, by rw [r.log]; simp⟩
 
+theorem sim_propose {s1 : Sys1 N} {s0 : Sys N} (r : R s1 s0) (i : Fin N) (v : Nat) (hl : (s1.nodes i).role = .leader) :
+    ∃ s0', Step? s0 s0' ∧ R ⟨upd1 s1.nodes i (proposeN (s1.nodes i) v), s1.net⟩ s0' :=
+  ⟨doClientReq s0 i v, Or.inr (Step.clientReq s0 i v (by rw [r.role]; exact hl)), R_propose r i v hl⟩
+
 theorem sim_sendApp {s1 : Sys1 N} {s0 : Sys N} (r : R s1 s0) (i dst : Fin N) (prev cnt : Nat)
     (hl : (s1.nodes i).role = .leader) (hp : prev ≤ (s1.nodes i).log.length) :
-    ∃ s0', Step? s0 s0' ∧ R ⟨s1.nodes, send s1 fun m =>
+    ∃ s0', StepNQ? s0 s0' ∧ R ⟨s1.nodes, send s1 fun m =>
       m = .app (s1.nodes i).term i dst prev (termAt (s1.nodes i).log prev) (((s1.nodes i).log.drop prev).take cnt) (s1.nodes i).commit⟩ s0' := by
-  refine ⟨doSendAE s0 i prev cnt, Or.inr (Step.sendAE s0 i prev cnt (by rw [r.role]; exact hl) (by rw [r.log]; exact hp)), ?_⟩
+  refine ⟨doSendAE s0 i prev cnt, Or.inr (StepNQ.sendAE s0 i prev cnt (by rw [r.role]; exact hl) (by rw [r.log]; exact hp)), ?_⟩
   have hmm : ∀ m, s0.msgs m → (doSendAE s0 i prev cnt).msgs m := fun _ h => Or.inl h
   have ha : ∀ t' j' n, s0.acks t' j' n → (doSendAE s0 i prev cnt).acks t' j' n := fun _ _ _ h => h
   refine r.rebuild_net _ rfl hmm ha ((r.net.mono hmm ha).add_app _ _ _ _ _ _ _ ?_)
@@ -538,8 +593,8 @@ theorem sim_sendApp {s1 : Sys1 N} {s0 : Sys N} (r : R s1 s0) (i dst : Fin N) (pr
 theorem sim_appBelow {s1 : Sys1 N} {s0 : Sys N} (r : R s1 s0) (j src : Fin N) (t prev pt : Nat) (ents : Log) (cm : Nat)
     (hm : s1.net (.app t src j prev pt ents cm)) (ht : (s1.nodes j).term = t) (hnl : (s1.nodes j).role ≠ .leader)
     (hlt : prev < (s1.nodes j).commit) :
-    ∃ s0', Step? s0 s0' ∧ R ⟨upd1 s1.nodes j (followN (s1.nodes j) src), send s1 fun m => m = .appResp t j src (s1.nodes j).commit false⟩ s0' := by
-  refine ⟨doAckCommitted s0 j src t, Or.inr (Step.ackCommitted s0 j src t prev pt ents cm (r.net.mapp _ _ _ _ _ _ _ hm)
+    ∃ s0', StepNQ? s0 s0' ∧ R ⟨upd1 s1.nodes j (followN (s1.nodes j) src), send s1 fun m => m = .appResp t j src (s1.nodes j).commit false⟩ s0' := by
+  refine ⟨doAckCommitted s0 j src t, Or.inr (StepNQ.ackCommitted s0 j src t prev pt ents cm (r.net.mapp _ _ _ _ _ _ _ hm)
     (by rw [r.term]; exact ht) (by rw [r.role]; exact hnl) (by rw [r.commit]; exact hlt)), ?_⟩
   have hmm : ∀ m, s0.msgs m → (doAckCommitted s0 j src t).msgs m := fun _ h => Or.inl h
   have ha : ∀ t' j' n, s0.acks t' j' n → (doAckCommitted s0 j src t).acks t' j' n := fun _ _ _ h => Or.inl h
@@ -552,9 +607,9 @@ theorem sim_appBelow {s1 : Sys1 N} {s0 : Sys N} (r : R s1 s0) (j src : Fin N) (t
 theorem sim_appAccept {s1 : Sys1 N} {s0 : Sys N} (r : R s1 s0) (j src : Fin N) (t prev pt : Nat) (ents : Log) (cm : Nat)
     (hm : s1.net (.app t src j prev pt ents cm)) (ht : (s1.nodes j).term = t) (hnl : (s1.nodes j).role ≠ .leader)
     (hmatch : prev ≤ (s1.nodes j).log.length ∧ termAt (s1.nodes j).log prev = pt) :
-    ∃ s0', Step? s0 s0' ∧ R ⟨upd1 s1.nodes j (acceptN (s1.nodes j) src prev ents cm),
+    ∃ s0', StepNQ? s0 s0' ∧ R ⟨upd1 s1.nodes j (acceptN (s1.nodes j) src prev ents cm),
       send s1 fun m => m = .appResp t j src (prev + ents.length) false⟩ s0' := by
-  refine ⟨doHandleAE s0 j src t prev ents cm, Or.inr (Step.handleAE s0 j src t prev pt ents cm (r.net.mapp _ _ _ _ _ _ _ hm)
+  refine ⟨doHandleAE s0 j src t prev ents cm, Or.inr (StepNQ.handleAE s0 j src t prev pt ents cm (r.net.mapp _ _ _ _ _ _ _ hm)
     (by rw [r.term]; exact ht) (by rw [r.role]; exact hnl) (by rw [r.log]; exact hmatch)), ?_⟩
   have hmm : ∀ m, s0.msgs m → (doHandleAE s0 j src t prev ents cm).msgs m := fun _ h => Or.inl h
   have ha : ∀ t' j' n, s0.acks t' j' n → (doHandleAE s0 j src t prev ents cm).acks t' j' n := fun _ _ _ h => Or.inl h
@@ -565,8 +620,8 @@ theorem sim_appAccept {s1 : Sys1 N} {s0 : Sys N} (r : R s1 s0) (j src : Fin N) (
     refine ⟨o.voted, ?_, ?_, ?_⟩ <;> simp [acceptN]
 
 theorem sim_appReject {s1 : Sys1 N} {s0 : Sys N} (r : R s1 s0) (j src : Fin N) (t prev : Nat) :
-    ∃ s0', Step? s0 s0' ∧ R ⟨upd1 s1.nodes j (followN (s1.nodes j) src), send s1 fun m => m = .appResp t j src prev true⟩ s0' := by
-  refine ⟨doRestart s0 j, Or.inr (Step.restart s0 j), ?_⟩
+    ∃ s0', StepNQ? s0 s0' ∧ R ⟨upd1 s1.nodes j (followN (s1.nodes j) src), send s1 fun m => m = .appResp t j src prev true⟩ s0' := by
+  refine ⟨doRestart s0 j, Or.inr (StepNQ.restart s0 j), ?_⟩
   refine r.rebuild j _ _ ?_ (fun _ h => h) (fun _ _ _ h => h) ((r.net.mono (s0' := doRestart s0 j) (fun _ h => h) (fun _ _ _ h => h)).add_appResp t j src prev true fun h => by cases h) ?_
   · simp only [doRestart, ← r.nodes j]; rfl
   · have o := r.node j
@@ -574,7 +629,7 @@ theorem sim_appReject {s1 : Sys1 N} {s0 : Sys N} (r : R s1 s0) (j src : Fin N) (
 
 theorem sim_ackRecord {s1 : Sys1 N} {s0 : Sys N} (r : R s1 s0) (i src : Fin N) (idx : Nat)
     (hm : s1.net (.appResp (s1.nodes i).term src i idx false)) (hl : (s1.nodes i).role = .leader) :
-    ∃ s0', Step? s0 s0' ∧ R ⟨upd1 s1.nodes i (ackN (s1.nodes i) src idx), s1.net⟩ s0' := by
+    ∃ s0', StepNQ? s0 s0' ∧ R ⟨upd1 s1.nodes i (ackN (s1.nodes i) src idx), s1.net⟩ s0' := by
   refine ⟨s0, Or.inl rfl, r.rebuild i _ _ ?_ (fun _ h => h) (fun _ _ _ h => h) r.net ?_⟩
   · funext k; by_cases hk : k = i
     · subst hk; simp [upd, ← r.nodes k, projNode, ackN]
@@ -594,7 +649,7 @@ theorem sim_ackRecord {s1 : Sys1 N} {s0 : Sys N} (r : R s1 s0) (i src : Fin N) (
       · rw [if_neg hj] at hpos ⊢; exact o.matched j hl hpos
 
 theorem sim_selfAck {s1 : Sys1 N} {s0 : Sys N} (r : R s1 s0) (i : Fin N) (hl : (s1.nodes i).role = .leader) :
-    ∃ s0', Step? s0 s0' ∧ R ⟨upd1 s1.nodes i (ackN (s1.nodes i) i (s1.nodes i).log.length), s1.net⟩ s0' := by
+    ∃ s0', StepNQ? s0 s0' ∧ R ⟨upd1 s1.nodes i (ackN (s1.nodes i) i (s1.nodes i).log.length), s1.net⟩ s0' := by
   refine ⟨s0, Or.inl rfl, r.rebuild i _ _ ?_ (fun _ h => h) (fun _ _ _ h => h) r.net ?_⟩
   · funext k; by_cases hk : k = i
     · subst hk; simp [upd, ← r.nodes k, projNode, ackN]
@@ -613,6 +668,22 @@ theorem sim_selfAck {s1 : Sys1 N} {s0 : Sys N} (r : R s1 s0) (i : Fin N) (hl : (
           exact ⟨_, Nat.le_refl _, o.selfack hl⟩
       · rw [if_neg hj] at hpos ⊢; exact o.matched j hl hpos
 
+/-- a leader's positive `match[]` entries are backed by recorded acknowledgements -/
+theorem commit_backing {s1 : Sys1 N} {s0 : Sys N} (r : R s1 s0) (i : Fin N) (k : Nat) (hl : (s1.nodes i).role = .leader)
+    (hk : (s1.nodes i).commit < k ∧ k ≤ (s1.nodes i).log.length) (Q : Finset (Fin N)) (hQ : ∀ j ∈ Q, k ≤ (s1.nodes i).matchI j) :
+    ∀ j ∈ Q, ∃ n, k ≤ n ∧ s0.acks (s0.nodes i).term j n := by
+  intro j hj
+  have := hQ j hj
+  obtain ⟨n, hn, hn'⟩ := (r.node i).matched j hl (by omega)
+  exact ⟨n, by omega, by rw [r.term]; exact hn'⟩
+
+theorem R_commitQ {s1 : Sys1 N} {s0 : Sys N} (r : R s1 s0) (i : Fin N) (k : Nat) :
+    R ⟨upd1 s1.nodes i { (s1.nodes i) with commit := k }, s1.net⟩ (doAdvanceCommit s0 i k) := by
+  refine r.rebuild i _ _ ?_ (fun _ h => h) (fun _ _ _ h => h) (r.net.mono (fun _ h => h) (fun _ _ _ h => h)) ?_
+  · simp only [doAdvanceCommit, ← r.nodes i]; rfl
+  · have o := r.node i
+    exact ⟨o.voted, o.granted, o.matched, o.selfack⟩
+
 theorem sim_commitQ {s1 : Sys1 N} {s0 : Sys N} (r : R s1 s0) (i : Fin N) (k : Nat)
     (hl : (s1.nodes i).role = .leader) (hk : (s1.nodes i).commit < k ∧ k ≤ (s1.nodes i).log.length)
     (hterm : termAt (s1.nodes i).log k = (s1.nodes i).term)
@@ -620,22 +691,14 @@ theorem sim_commitQ {s1 : Sys1 N} {s0 : Sys N} (r : R s1 s0) (i : Fin N) (k : Na
     ∃ s0', Step? s0 s0' ∧ R ⟨upd1 s1.nodes i { (s1.nodes i) with commit := k }, s1.net⟩ s0' := by
   obtain ⟨Q, hq, hQ'⟩ := quorum_of_countP _ hq'
   have hQ : ∀ j ∈ Q, k ≤ (s1.nodes i).matchI j := fun j hj => by simpa using hQ' j hj
-  refine ⟨doAdvanceCommit s0 i k, Or.inr (Step.advanceCommit s0 i k Q (by rw [r.role]; exact hl)
-    (by rw [r.commit, r.log]; exact hk) (by rw [r.log, r.term]; exact hterm) hq ?_), ?_⟩
-  · intro j hj
-    have := hQ j hj
-    obtain ⟨n, hn, hn'⟩ := (r.node i).matched j hl (by omega)
-    exact ⟨n, by omega, by rw [r.term]; exact hn'⟩
-  refine r.rebuild i _ _ ?_ (fun _ h => h) (fun _ _ _ h => h) (r.net.mono (fun _ h => h) (fun _ _ _ h => h)) ?_
-  · simp only [doAdvanceCommit, ← r.nodes i]; rfl
-  · have o := r.node i
-    exact ⟨o.voted, o.granted, o.matched, o.selfack⟩
+  exact ⟨doAdvanceCommit s0 i k, Or.inr (Step.advanceCommit s0 i k Q (by rw [r.role]; exact hl)
+    (by rw [r.commit, r.log]; exact hk) (by rw [r.log, r.term]; exact hterm) hq (commit_backing r i k hl hk Q hQ)), R_commitQ r i k⟩
 
 theorem sim_sendBeat {s1 : Sys1 N} {s0 : Sys N} (r : R s1 s0) (i dst : Fin N) (hl : (s1.nodes i).role = .leader) :
-    ∃ s0', Step? s0 s0' ∧ R ⟨s1.nodes, send s1 fun m =>
+    ∃ s0', StepNQ? s0 s0' ∧ R ⟨s1.nodes, send s1 fun m =>
       m = .hb (s1.nodes i).term i dst (min ((s1.nodes i).matchI dst) (s1.nodes i).commit)⟩ s0' := by
   refine ⟨doSendHB s0 i dst (min ((s1.nodes i).matchI dst) (s1.nodes i).commit),
-    Or.inr (Step.sendHB s0 i dst _ (by rw [r.role]; exact hl) (by rw [r.commit]; exact Nat.min_le_right _ _) ?_), ?_⟩
+    Or.inr (StepNQ.sendHB s0 i dst _ (by rw [r.role]; exact hl) (by rw [r.commit]; exact Nat.min_le_right _ _) ?_), ?_⟩
   · by_cases h0 : (s1.nodes i).matchI dst = 0
     · left; rw [h0]; simp
     · right
@@ -647,8 +710,8 @@ theorem sim_sendBeat {s1 : Sys1 N} {s0 : Sys N} (r : R s1 s0) (i dst : Fin N) (h
 
 theorem sim_beat {s1 : Sys1 N} {s0 : Sys N} (r : R s1 s0) (j src : Fin N) (t c : Nat) (hm : s1.net (.hb t src j c))
     (ht : (s1.nodes j).term = t) (hnl : (s1.nodes j).role ≠ .leader) :
-    ∃ s0', Step? s0 s0' ∧ R ⟨upd1 s1.nodes j (beatN (s1.nodes j) src c), s1.net⟩ s0' := by
-  refine ⟨doHandleHB s0 j c, Or.inr (Step.handleHB s0 j src t c (r.net.mhb _ _ _ _ hm) (by rw [r.term]; exact ht)
+    ∃ s0', StepNQ? s0 s0' ∧ R ⟨upd1 s1.nodes j (beatN (s1.nodes j) src c), s1.net⟩ s0' := by
+  refine ⟨doHandleHB s0 j c, Or.inr (StepNQ.handleHB s0 j src t c (r.net.mhb _ _ _ _ hm) (by rw [r.term]; exact ht)
     (by rw [r.role]; exact hnl)), ?_⟩
   refine r.rebuild j _ _ ?_ (fun _ h => h) (fun _ _ _ h => h) (r.net.mono (fun _ h => h) (fun _ _ _ h => h)) ?_
   · simp only [doHandleHB, ← r.nodes j]; rfl
@@ -678,8 +741,8 @@ theorem restore_log {llog : Nat → Log} {l L : Log} (hl : PrefixOK llog l) (hL 
 
 theorem sim_sendSnap {s1 : Sys1 N} {s0 : Sys N} (r : R s1 s0) (i dst : Fin N) (k : Nat)
     (hl : (s1.nodes i).role = .leader) (hk : 1 ≤ k ∧ k ≤ (s1.nodes i).commit ∧ k ≤ (s1.nodes i).log.length) :
-    ∃ s0', Step? s0 s0' ∧ R ⟨s1.nodes, send s1 fun m => m = .snap (s1.nodes i).term i dst k ((s1.nodes i).log.take k)⟩ s0' := by
-  refine ⟨doSendAE s0 i 0 k, Or.inr (Step.sendAE s0 i 0 k (by rw [r.role]; exact hl) (Nat.zero_le _)), ?_⟩
+    ∃ s0', StepNQ? s0 s0' ∧ R ⟨s1.nodes, send s1 fun m => m = .snap (s1.nodes i).term i dst k ((s1.nodes i).log.take k)⟩ s0' := by
+  refine ⟨doSendAE s0 i 0 k, Or.inr (StepNQ.sendAE s0 i 0 k (by rw [r.role]; exact hl) (Nat.zero_le _)), ?_⟩
   have hmm : ∀ m, s0.msgs m → (doSendAE s0 i 0 k).msgs m := fun _ h => Or.inl h
   have ha : ∀ t' j' n, s0.acks t' j' n → (doSendAE s0 i 0 k).acks t' j' n := fun _ _ _ h => h
   refine r.rebuild_net _ rfl hmm ha ((r.net.mono hmm ha).add_snap _ _ _ _ _ ⟨hk.1, ?_, (s1.nodes i).commit, hk.2.1, ?_⟩)
@@ -691,9 +754,9 @@ theorem sim_sendSnap {s1 : Sys1 N} {s0 : Sys N} (r : R s1 s0) (i dst : Fin N) (k
 theorem sim_snapIgnore {s1 : Sys1 N} {s0 : Sys N} (r : R s1 s0) (j src : Fin N) (t k : Nat) (ents : Log)
     (hm : s1.net (.snap t src j k ents)) (ht : (s1.nodes j).term = t) (hnl : (s1.nodes j).role ≠ .leader)
     (hle : k ≤ (s1.nodes j).commit) :
-    ∃ s0', Step? s0 s0' ∧ R ⟨upd1 s1.nodes j (followN (s1.nodes j) src), send s1 fun m => m = .appResp t j src (s1.nodes j).commit false⟩ s0' := by
+    ∃ s0', StepNQ? s0 s0' ∧ R ⟨upd1 s1.nodes j (followN (s1.nodes j) src), send s1 fun m => m = .appResp t j src (s1.nodes j).commit false⟩ s0' := by
   obtain ⟨h1, _, cm, _, hae⟩ := r.net.msnap _ _ _ _ _ hm
-  refine ⟨doAckCommitted s0 j src t, Or.inr (Step.ackCommitted s0 j src t 0 0 ents cm hae
+  refine ⟨doAckCommitted s0 j src t, Or.inr (StepNQ.ackCommitted s0 j src t 0 0 ents cm hae
     (by rw [r.term]; exact ht) (by rw [r.role]; exact hnl) (by rw [r.commit]; omega)), ?_⟩
   have hmm : ∀ m, s0.msgs m → (doAckCommitted s0 j src t).msgs m := fun _ h => Or.inl h
   have ha : ∀ t' j' n, s0.acks t' j' n → (doAckCommitted s0 j src t).acks t' j' n := fun _ _ _ h => Or.inl h
@@ -703,26 +766,28 @@ theorem sim_snapIgnore {s1 : Sys1 N} {s0 : Sys N} (r : R s1 s0) (j src : Fin N) 
   · have o := (r.node j).mono hmm ha
     refine ⟨o.voted, ?_, ?_, ?_⟩ <;> simp [followN]
 
-theorem sim_snapRestore {s1 : Sys1 N} {s0 : Sys N} (r0 : Reach s0) (r : R s1 s0) (j src : Fin N) (t k : Nat) (ents : Log)
+theorem sim_snapRestore {s1 : Sys1 N} {s0 : Sys N}
+    (hae_ok : ∀ t src prev pt ents cm, s0.msgs (.ae t src prev pt ents cm) →
+       s0.isLdr t src ∧ prev ≤ (s0.llog t).length ∧ pt = termAt (s0.llog t) prev ∧ ents = ((s0.llog t).drop prev).take ents.length)
+    (hpn : ∀ i, PrefixOK s0.llog (s0.nodes i).log) (hpl : ∀ t, PrefixOK s0.llog (s0.llog t)) (r : R s1 s0) (j src : Fin N) (t k : Nat) (ents : Log)
     (hm : s1.net (.snap t src j k ents)) (ht : (s1.nodes j).term = t) (hnl : (s1.nodes j).role ≠ .leader)
     (hgt : (s1.nodes j).commit < k) :
-    ∃ s0', Step? s0 s0' ∧ R ⟨upd1 s1.nodes j (restoreN (s1.nodes j) src k ents), send s1 fun m => m = .appResp t j src k false⟩ s0' := by
+    ∃ s0', StepNQ? s0 s0' ∧ R ⟨upd1 s1.nodes j (restoreN (s1.nodes j) src k ents), send s1 fun m => m = .appResp t j src k false⟩ s0' := by
   obtain ⟨h1, hlen, cm, hcm, hae⟩ := r.net.msnap _ _ _ _ _ hm
-  obtain ⟨h0, _⟩ := reach_inv r0
-  obtain ⟨_, _, _, hents⟩ := h0.ae_ok _ _ _ _ _ _ hae
+  obtain ⟨_, _, _, hents⟩ := hae_ok _ _ _ _ _ _ hae
   simp only [List.drop_zero, hlen] at hents
   have hkL : k ≤ (s0.llog t).length := by
     have := congrArg List.length hents
     rw [hlen, List.length_take] at this
     omega
-  refine ⟨doHandleAE s0 j src t 0 ents cm, Or.inr (Step.handleAE s0 j src t 0 0 ents cm hae
+  refine ⟨doHandleAE s0 j src t 0 ents cm, Or.inr (StepNQ.handleAE s0 j src t 0 0 ents cm hae
     (by rw [r.term]; exact ht) (by rw [r.role]; exact hnl) ⟨Nat.zero_le _, rfl⟩), ?_⟩
   have hmm : ∀ m, s0.msgs m → (doHandleAE s0 j src t 0 ents cm).msgs m := fun _ h => Or.inl h
   have ha : ∀ t' j' n, s0.acks t' j' n → (doHandleAE s0 j src t 0 ents cm).acks t' j' n := fun _ _ _ h => Or.inl h
   refine r.rebuild j _ _ ?_ hmm ha ((r.net.mono hmm ha).add_appResp _ _ _ _ _ fun _ => ?_) ?_
   · simp only [doHandleAE]
     congr 1
-    have hlog := restore_log (h0.p_nodes j) (h0.p_llog t) h1 hkL
+    have hlog := restore_log (hpn j) (hpl t) h1 hkL
     rw [← hents, r.log] at hlog
     simp only [projNode, restoreN, ← r.nodes j]
     rw [hlog, hlen]
@@ -737,26 +802,26 @@ theorem sim_snapRestore {s1 : Sys1 N} {s0 : Sys N} (r0 : Reach s0) (r : R s1 s0)
 /-- every L1 step is simulated by at most one L0 step -/
 theorem sim {s1 s1' : Sys1 N} {s0 : Sys N} (r0 : Reach s0) (r : R s1 s0) (st : Step1 s1 s1') : ∃ s0', Step? s0 s0' ∧ R s1' s0' := by
   cases st with
-  | higherTerm j t lead h => exact sim_higherTerm r j t lead h
+  | higherTerm j t lead h => exact (sim_higherTerm r j t lead h).imp fun _ h => ⟨h.1.toStep?, h.2⟩
   | hup i h => exact sim_hup r i h
-  | voteGrant j c t li lt hm ht hcan hu => exact sim_voteGrant r j c t li lt hm ht hcan hu
-  | voteReject j c t => exact sim_voteReject r j c t
-  | voteRecord i src rej hm hc => exact sim_voteRecord r i src rej hm
+  | voteGrant j c t li lt hm ht hcan hu => exact (sim_voteGrant r j c t li lt hm ht hcan hu).imp fun _ h => ⟨h.1.toStep?, h.2⟩
+  | voteReject j c t => exact (sim_voteReject r j c t).imp fun _ h => ⟨h.1.toStep?, h.2⟩
+  | voteRecord i src rej hm hc => exact (sim_voteRecord r i src rej hm).imp fun _ h => ⟨h.1.toStep?, h.2⟩
   | win i hc hq => exact sim_win r i hc hq
-  | selfAck i hl => exact sim_selfAck r i hl
-  | stepDown i => exact sim_stepDown r i
+  | selfAck i hl => exact (sim_selfAck r i hl).imp fun _ h => ⟨h.1.toStep?, h.2⟩
+  | stepDown i => exact (sim_stepDown r i).imp fun _ h => ⟨h.1.toStep?, h.2⟩
   | propose i v hl => exact sim_propose r i v hl
-  | sendApp i dst prev cnt hl hp => exact sim_sendApp r i dst prev cnt hl hp
-  | appBelow j src t prev pt ents cm hm ht hnl hlt => exact sim_appBelow r j src t prev pt ents cm hm ht hnl hlt
-  | appAccept j src t prev pt ents cm hm ht hnl hmatch => exact sim_appAccept r j src t prev pt ents cm hm ht hnl hmatch
-  | appReject j src t prev ht hnl => exact sim_appReject r j src t prev
-  | ackRecord i src idx hm hl => exact sim_ackRecord r i src idx hm hl
+  | sendApp i dst prev cnt hl hp => exact (sim_sendApp r i dst prev cnt hl hp).imp fun _ h => ⟨h.1.toStep?, h.2⟩
+  | appBelow j src t prev pt ents cm hm ht hnl hlt => exact (sim_appBelow r j src t prev pt ents cm hm ht hnl hlt).imp fun _ h => ⟨h.1.toStep?, h.2⟩
+  | appAccept j src t prev pt ents cm hm ht hnl hmatch => exact (sim_appAccept r j src t prev pt ents cm hm ht hnl hmatch).imp fun _ h => ⟨h.1.toStep?, h.2⟩
+  | appReject j src t prev ht hnl => exact (sim_appReject r j src t prev).imp fun _ h => ⟨h.1.toStep?, h.2⟩
+  | ackRecord i src idx hm hl => exact (sim_ackRecord r i src idx hm hl).imp fun _ h => ⟨h.1.toStep?, h.2⟩
   | commitQ i k hl hk hterm hq => exact sim_commitQ r i k hl hk hterm hq
-  | sendSnap i dst k hl hk => exact sim_sendSnap r i dst k hl hk
-  | snapIgnore j src t k ents hm ht hnl hle => exact sim_snapIgnore r j src t k ents hm ht hnl hle
-  | snapRestore j src t k ents hm ht hnl hgt => exact sim_snapRestore r0 r j src t k ents hm ht hnl hgt
-  | sendBeat i dst hl => exact sim_sendBeat r i dst hl
-  | beat j src t c hm ht hnl => exact sim_beat r j src t c hm ht hnl
+  | sendSnap i dst k hl hk => exact (sim_sendSnap r i dst k hl hk).imp fun _ h => ⟨h.1.toStep?, h.2⟩
+  | snapIgnore j src t k ents hm ht hnl hle => exact (sim_snapIgnore r j src t k ents hm ht hnl hle).imp fun _ h => ⟨h.1.toStep?, h.2⟩
+  | snapRestore j src t k ents hm ht hnl hgt => exact (sim_snapRestore (reach_inv r0).1.ae_ok (reach_inv r0).1.p_nodes (reach_inv r0).1.p_llog r j src t k ents hm ht hnl hgt).imp fun _ h => ⟨h.1.toStep?, h.2⟩
+  | sendBeat i dst hl => exact (sim_sendBeat r i dst hl).imp fun _ h => ⟨h.1.toStep?, h.2⟩
+  | beat j src t c hm ht hnl => exact (sim_beat r j src t c hm ht hnl).imp fun _ h => ⟨h.1.toStep?, h.2⟩
 
 def init1 (N : Nat) : Sys1 N :=
   ⟨fun _ => ⟨0, none, .follower, none, [], 0, fun _ => none, fun _ => 0⟩, fun _ => False⟩
